@@ -362,8 +362,12 @@ Definition with_key (x : sx) (f : key -> M unit) : M unit :=
 
 Definition sym_set (x v : sx) : M unit :=
   with_key x (fun k s => (Ok tt, sput s k (b_set (sget s k) v))).
+Definition note_global (k : key) (s : st) : st :=
+  {| store := store s; next_id := next_id s; log := log s; steps := steps s;
+     fail_at := fail_at s; htabs := htabs s; flags := flags s; files := files s;
+     nfiles := nfiles s; mlog := mlog s; glog := k :: glog s |}.
 Definition sym_set_global (x v : sx) : M unit :=
-  with_key x (fun k s => (Ok tt, sput s k (b_set_global (sget s k) v))).
+  with_key x (fun k s => (Ok tt, note_global k (sput s k (b_set_global (sget s k) v)))).
 Definition sym_set_scope (x v : sx) : M unit :=
   with_key x (fun k s => (Ok tt, sput s k (b_set_scope (sget s k) v))).
 Definition sym_unset (x : sx) : M unit :=
@@ -401,7 +405,7 @@ Definition fresh_id : M positive :=
   fun s => (Ok (next_id s),
             {| store := store s; next_id := Pos.succ (next_id s); log := log s;
                steps := steps s; fail_at := fail_at s; htabs := htabs s;
-               flags := flags s; files := files s; nfiles := nfiles s; mlog := mlog s |}).
+               flags := flags s; files := files s; nfiles := nfiles s; mlog := mlog s; glog := glog s |}).
 
 (* ghost: remember that a defmacro pushed a permanent entry on this symbol *)
 Definition note_defmacro (x : sx) : M unit :=
@@ -409,7 +413,8 @@ Definition note_defmacro (x : sx) : M unit :=
             {| store := store s; next_id := next_id s; log := log s;
                steps := steps s; fail_at := fail_at s; htabs := htabs s;
                flags := flags s; files := files s; nfiles := nfiles s;
-               mlog := match key_of x with Some k => k :: mlog s | None => mlog s end |}).
+               mlog := match key_of x with Some k => k :: mlog s | None => mlog s end;
+               glog := glog s |}).
 
 (* ------------------------------------------------------------------ *)
 (* DefunParams                                                         *)
@@ -914,7 +919,7 @@ Definition ht_store (h : positive) (l : list (sx * sx)) : M unit :=
   fun s => (Ok tt,
             {| store := store s; next_id := next_id s; log := log s; steps := steps s;
                fail_at := fail_at s; htabs := PositiveMap.add h l (htabs s);
-               flags := flags s; files := files s; nfiles := nfiles s; mlog := mlog s |}).
+               flags := flags s; files := files s; nfiles := nfiles s; mlog := mlog s; glog := glog s |}).
 
 (* ---- assoc --------------------------------------------------------- *)
 Fixpoint assoc_find (test : sx -> M bool) (alist : sx) : M sx :=
@@ -1106,7 +1111,7 @@ Definition set_flags (n : text) : M unit :=
                   nil_interned := nil_interned fl || text_eqb n name_nil |} in
     (Ok tt, {| store := store s; next_id := next_id s; log := log s; steps := steps s;
                fail_at := fail_at s; htabs := htabs s; flags := fl';
-               files := files s; nfiles := nfiles s; mlog := mlog s |}).
+               files := files s; nfiles := nfiles s; mlog := mlog s; glog := glog s |}).
 
 Definition do_tick (id : sx) (v : sx) : M sx :=
   fun s =>
@@ -1115,7 +1120,7 @@ Definition do_tick (id : sx) (v : sx) : M sx :=
     let s' := {| store := store s; next_id := next_id s;
                  log := (idz, print F v) :: log s; steps := n;
                  fail_at := fail_at s; htabs := htabs s; flags := flags s;
-                 files := files s; nfiles := nfiles s; mlog := mlog s |} in
+                 files := files s; nfiles := nfiles s; mlog := mlog s; glog := glog s |} in
     match fail_at s with
     | Some k => if N.eqb k n then (Err EHost, s') else (Ok v, s')
     | None => (Ok v, s')
@@ -1150,7 +1155,7 @@ Definition find_file (name : text) : M text :=
                         {| store := store s; next_id := next_id s; log := log s;
                            steps := steps s; fail_at := fail_at s; htabs := htabs s;
                            flags := flags s; files := files s;
-                           nfiles := N.succ (nfiles s); mlog := mlog s |})
+                           nfiles := N.succ (nfiles s); mlog := mlog s; glog := glog s |})
            | None => (Err EUndef, s)
            end.
 
